@@ -40,16 +40,19 @@ func (o op) String() string {
 	switch o.kind {
 	case 'f', 'F':
 		return fmt.Sprintf("%c%d", o.kind, o.x)
-	case 'o', 'v':
+	case 'o', 'v', 's', 'm', 'r':
 		return string(o.kind)
 	}
 	return fmt.Sprintf("%c%d,%d", o.kind, o.x, o.y)
 }
 
 type header struct {
-	n      int
-	sparse bool
-	bufCap int
+	n       int
+	sparse  bool
+	bufCap  int
+	garbage bool // the scratch buffer is filled with arbitrary in-range values before the first and after every buffered call, and handed over at full length every other time
+	two     bool // a second Set of n2 elements lives next to the first; tokens with prefix @ go to it; both share the scratch buffer
+	n2      int
 }
 
 func (h header) String() string {
@@ -60,18 +63,34 @@ func (h header) String() string {
 	if h.bufCap != 4 {
 		s += fmt.Sprintf(":c%d", h.bufCap)
 	}
+	if h.garbage {
+		s += ":g"
+	}
+	if h.two {
+		s += fmt.Sprintf(":t%d", h.n2)
+	}
+	return s
+}
+
+func tokens(ops []op, prefix string) []string {
+	s := make([]string, len(ops))
+	for i, o := range ops {
+		s[i] = prefix + o.String()
+	}
 	return s
 }
 
 func caseLine(h header, ops []op) string {
-	s := make([]string, len(ops))
-	for i, o := range ops {
-		s[i] = o.String()
-	}
-	return h.String() + ";" + strings.Join(s, " ")
+	return h.String() + ";" + strings.Join(tokens(ops, ""), " ")
 }
 
-func parseCase(line string) (header, []op) {
+// tok is a token of a case: an operation and the object (0 or 1) it goes to.
+type tok struct {
+	op
+	obj int
+}
+
+func parseCase(line string) (header, []tok) {
 	parts := strings.SplitN(line, ";", 2)
 	hs := strings.Split(parts[0], ":")
 	h := header{bufCap: 4}
@@ -80,16 +99,26 @@ func parseCase(line string) (header, []op) {
 		switch {
 		case f == "s":
 			h.sparse = true
+		case f == "g":
+			h.garbage = true
 		case strings.HasPrefix(f, "c"):
 			h.bufCap, _ = strconv.Atoi(f[1:])
+		case strings.HasPrefix(f, "t"):
+			h.two = true
+			h.n2, _ = strconv.Atoi(f[1:])
 		}
 	}
 	if h.bufCap < 1 {
 		h.bufCap = 1
 	}
-	var ops []op
+	var ops []tok
 	for _, t := range strings.Fields(parts[1]) {
-		o := op{kind: t[0]}
+		var o tok
+		if t[0] == '@' {
+			o.obj = 1
+			t = t[1:]
+		}
+		o.kind = t[0]
 		if len(t) > 1 {
 			nums := strings.Split(t[1:], ",")
 			o.x, _ = strconv.Atoi(nums[0])
@@ -174,67 +203,189 @@ type outcome struct {
 	compressed bool // some lookup walked a path of >= 3 elements (compression rewrote a pointer)
 	maxWalk    int  // longest path (in links) walked by a lookup of the history
 	viewsModel bool
+	nsets      int
 	viol       []hx.OracleViolation
 }
 
+// held is a result of a view kept by the caller together with a deep copy taken when it was
+// returned: the result of an earlier call must not change through later calls.
+type held struct {
+	what string
+	sets [][]int
+	ints []int
+	cs   [][]int
+	ci   []int
+}
+
+func copySets(a [][]int) [][]int {
+	c := make([][]int, len(a))
+	for i := range a {
+		c[i] = append([]int(nil), a[i]...)
+	}
+	return c
+}
+
+func sameInts(a, b []int) bool {
+	if len(a) != len(b) {
+		return false
+	}
+	for i := range a {
+		if a[i] != b[i] {
+			return false
+		}
+	}
+	return true
+}
+
+func sameSets(a, b [][]int) bool {
+	if len(a) != len(b) {
+		return false
+	}
+	for i := range a {
+		if !sameInts(a[i], b[i]) {
+			return false
+		}
+	}
+	return true
+}
+
+func (h *held) intact() bool { return sameSets(h.sets, h.cs) && sameInts(h.ints, h.ci) }
+
+// scribble overwrites a result the caller owns.
+func (h *held) scribble() {
+	for i := range h.ints {
+		h.ints[i] = -7 - i
+	}
+	for _, s := range h.sets {
+		for i := range s {
+			s[i] = 1<<20 + i
+		}
+	}
+	for i := range h.sets {
+		h.sets[i] = h.sets[0][:0]
+	}
+}
+
 // run executes the history.
-func run(h header, ops []op) (out outcome) {
+func run(h header, ops []tok) (out outcome) {
 	var sb, strict strings.Builder
-	n := h.n
-	ds := disjoint.New(n)
+	size := []int{h.n, h.n2}
+	dss := []disjoint.Set{disjoint.New(h.n)}
+	if h.two {
+		dss = append(dss, disjoint.New(h.n2))
+	}
 	buf := make([]int, 1, h.bufCap)
+	// garbage: whatever the buffer holds is the caller's business
+	calls := 0
+	fill := func() {
+		if !h.garbage {
+			return
+		}
+		calls++
+		m := h.n
+		if m < 1 {
+			m = 1
+		}
+		b := buf[:cap(buf)]
+		for i := range b {
+			b[i] = (i*7 + calls*13 + 3) % m
+		}
+		if calls%2 == 0 {
+			buf = b
+		} else {
+			buf = b[:1]
+		}
+	}
+	fill()
 	first := true
-	item := func(s string) {
+	item := func(obj int, s string) {
 		if !first {
 			sb.WriteByte('|')
 		}
 		first = false
+		if obj == 1 {
+			sb.WriteByte('@')
+		}
 		sb.WriteString(s)
 	}
-	walked := func(xs ...int) {
-		for _, x := range xs {
-			d := depth(ds, x)
-			if d >= 2 {
-				out.compressed = true
-			}
-			if d > out.maxWalk {
-				out.maxWalk = d
-			}
+	fail := func(key, format string, a ...interface{}) {
+		if len(out.viol) < 3 {
+			out.viol = append(out.viol, hx.Fail(key, format, a...))
 		}
 	}
-	// A representative is a member of its own set and lookups do not change representatives, so
-	// looking up the value just returned must give it back (checked on a copy).
-	checkRep := func(i int, o op, r int) {
-		if len(out.viol) > 0 {
-			return
-		}
-		if r < 0 || r >= n {
-			out.viol = append(out.viol, hx.Fail("C18:find-range", "op %d (%s) returned %d, not an element of 0..%d", i, o, r, n-1))
-			return
-		}
-		c := append(disjoint.Set(nil), ds...)
-		if r2 := c.Find(r); r2 != r {
-			out.viol = append(out.viol, hx.Fail("C18:find-not-representative", "op %d (%s) returned %d, but Find(%d) immediately afterwards is %d: the value returned is not the representative of its own set", i, o, r, r, r2))
+	var keep []*held
+	hold := func(x *held) {
+		x.cs, x.ci = copySets(x.sets), append([]int(nil), x.ints...)
+		keep = append(keep, x)
+	}
+	revalidate := func(i int, o tok) {
+		for _, x := range keep {
+			if !x.intact() {
+				fail("C18:result-changed", "the result of %s changed after later calls (noticed after op %d, %s): now %v %v, was %v %v", x.what, i, o, x.sets, x.ints, x.cs, x.ci)
+				x.cs, x.ci = copySets(x.sets), append([]int(nil), x.ints...)
+			}
 		}
 	}
 	for i, o := range ops {
+		if o.obj >= len(dss) {
+			continue // token for an object the header does not declare (only after shrinking by hand)
+		}
+		ds := dss[o.obj]
+		n := size[o.obj]
+		walked := func(xs ...int) {
+			for _, x := range xs {
+				d := depth(ds, x)
+				if d >= 2 {
+					out.compressed = true
+				}
+				if d > out.maxWalk {
+					out.maxWalk = d
+				}
+			}
+		}
+		// A representative is a member of its own set and lookups do not change representatives,
+		// so looking up the value just returned must give it back (checked on a copy).
+		checkRep := func(r int) {
+			if r < 0 || r >= n {
+				fail("C18:find-range", "op %d (%s) returned %d, not an element of 0..%d", i, o, r, n-1)
+				return
+			}
+			c := append(disjoint.Set(nil), ds...)
+			if r2 := c.Find(r); r2 != r {
+				fail("C18:find-not-representative", "op %d (%s) returned %d, but Find(%d) immediately afterwards is %d: the value returned is not the representative of its own set", i, o, r, r, r2)
+			}
+		}
+		walkedAll := func() {
+			for x := 0; x < n && !out.compressed; x++ {
+				walked(x)
+			}
+		}
+		// a view is about to be called: the oldest results held are given up (scribbled over)
+		retire := func() {
+			for len(keep) > 6 {
+				keep[0].scribble()
+				keep = keep[1:]
+			}
+		}
 		switch o.kind {
 		case 'f':
 			walked(o.x)
 			r := ds.Find(o.x)
 			fmt.Fprintf(&strict, "%d ", r)
-			checkRep(i, o, r)
+			checkRep(r)
 		case 'F':
 			walked(o.x)
 			r := ds.FindBuffered(o.x, buf)
+			fill()
 			fmt.Fprintf(&strict, "%d ", r)
-			checkRep(i, o, r)
+			checkRep(r)
 		case 'u':
 			walked(o.x, o.y)
 			ds.Union(o.x, o.y)
 		case 'U':
 			walked(o.x, o.y)
 			ds.UnionBuffered(o.x, o.y, buf)
+			fill()
 		case 'q', 'Q':
 			walked(o.x)
 			var rx, ry int
@@ -244,40 +395,98 @@ func run(h header, ops []op) (out outcome) {
 				ry = ds.Find(o.y)
 			} else {
 				rx = ds.FindBuffered(o.x, buf)
+				fill()
 				walked(o.y)
 				ry = ds.FindBuffered(o.y, buf)
+				fill()
 			}
 			if rx == ry {
-				item("q1")
+				item(o.obj, "q1")
 			} else {
-				item("q0")
+				item(o.obj, "q0")
 			}
 		case 'o':
-			item(hx.Ints(labels(ds)))
-		case 'v':
-			for x := 0; x < n && !out.compressed; x++ {
-				walked(x)
-			}
+			item(o.obj, hx.Ints(labels(ds)))
+		case 's':
+			walkedAll()
+			retire()
 			sets := ds.Sets()
+			hold(&held{what: fmt.Sprintf("Sets() at op %d", i), sets: sets})
+			item(o.obj, "s"+setsStr(sets))
+		case 'm':
+			walkedAll()
+			retire()
 			sr := ds.SmallestRep()
+			hold(&held{what: fmt.Sprintf("SmallestRep() at op %d", i), ints: sr})
+			item(o.obj, "m"+hx.Ints(sr))
+		case 'r':
+			retire()
 			roots := ds.Roots()
-			item("v" + setsStr(sets) + "~" + hx.Ints(sr) + "~" + hx.Ints(rootLabels(labels(ds), roots)))
+			hold(&held{what: fmt.Sprintf("Roots() at op %d", i), ints: roots})
+			item(o.obj, "r"+hx.Ints(rootLabels(labels(ds), roots)))
+		case 'v':
+			walkedAll()
+			retire()
+			sets := ds.Sets()
+			hold(&held{what: fmt.Sprintf("Sets() at op %d", i), sets: sets})
+			sr := ds.SmallestRep()
+			hold(&held{what: fmt.Sprintf("SmallestRep() at op %d", i), ints: sr})
+			roots := ds.Roots()
+			hold(&held{what: fmt.Sprintf("Roots() at op %d", i), ints: roots})
+			item(o.obj, "v"+setsStr(sets)+"~"+hx.Ints(sr)+"~"+hx.Ints(rootLabels(labels(ds), roots)))
 		}
 		if !h.sparse && o.kind != 'o' {
-			item(hx.Ints(labels(ds)))
+			item(o.obj, hx.Ints(labels(ds)))
 		}
+		revalidate(i, o)
 	}
+	// every result still held is given up before the final views are taken
+	for _, x := range keep {
+		x.scribble()
+	}
+	keep = nil
 	// the final views; each is taken on its own copy, as the model does
-	lab := labels(ds)
-	out.viewsModel = viewsCost(lab) <= viewBudget
-	c1 := append(disjoint.Set(nil), ds...)
-	sets := c1.Sets()
-	c2 := append(disjoint.Set(nil), ds...)
-	sr := c2.SmallestRep()
-	c3 := append(disjoint.Set(nil), ds...)
-	roots := c3.Roots()
-	fmt.Fprintf(&sb, ";sets=%s;sr=%s;roots=%s", setsStr(sets), hx.Ints(sr), hx.Ints(rootLabels(lab, roots)))
-	out.obs = sb.String() + " ## " + hx.Ints([]int(ds)) + " finds=" + strings.TrimSpace(strict.String())
+	var raw []string
+	for obj, ds := range dss {
+		lab := labels(ds)
+		if obj == 0 {
+			out.viewsModel = viewsCost(lab) <= viewBudget
+		}
+		view := func() (*held, *held, *held) {
+			c1 := append(disjoint.Set(nil), ds...)
+			c2 := append(disjoint.Set(nil), ds...)
+			c3 := append(disjoint.Set(nil), ds...)
+			return &held{what: "Sets() at the end", sets: c1.Sets()}, &held{what: "SmallestRep() at the end", ints: c2.SmallestRep()}, &held{what: "Roots() at the end", ints: c3.Roots()}
+		}
+		a1, a2, a3 := view()
+		pre := ""
+		if obj == 1 {
+			pre = "@"
+		} else {
+			out.nsets = len(a1.sets)
+		}
+		fmt.Fprintf(&sb, ";%ssets=%s;%ssr=%s;%sroots=%s", pre, setsStr(a1.sets), pre, hx.Ints(a2.ints), pre, hx.Ints(rootLabels(lab, a3.ints)))
+		// the same views of the same array again, with the first results held, and a third time
+		// after the caller has scribbled over the first results: all three must agree
+		hold(a1)
+		hold(a2)
+		hold(a3)
+		b1, b2, b3 := view()
+		revalidate(len(ops), tok{})
+		if !sameSets(b1.sets, a1.cs) || !sameInts(b2.ints, a2.ci) || !sameInts(b3.ints, a3.ci) {
+			fail("C18:view-not-reproducible", "the views of one array taken twice differ: Sets %v / %v, SmallestRep %v / %v, Roots %v / %v", a1.cs, b1.sets, a2.ci, b2.ints, a3.ci, b3.ints)
+		}
+		a1.scribble()
+		a2.scribble()
+		a3.scribble()
+		keep = nil
+		c1, c2, c3 := view()
+		if !sameSets(c1.sets, a1.cs) || !sameInts(c2.ints, a2.ci) || !sameInts(c3.ints, a3.ci) {
+			fail("C18:view-after-scribble", "after the caller overwrote the results of the views, the views of the same array differ: Sets %v / %v, SmallestRep %v / %v, Roots %v / %v", a1.cs, c1.sets, a2.ci, c2.ints, a3.ci, c3.ints)
+		}
+		raw = append(raw, hx.Ints([]int(ds)))
+	}
+	out.obs = sb.String() + " ## " + strings.Join(raw, " @ ") + " finds=" + strings.TrimSpace(strict.String())
 	return out
 }
 
@@ -292,9 +501,17 @@ func exec(line string) hx.Result {
 	if out.viewsModel {
 		views = "views:model"
 	}
-	return hx.Result{Obs: out.obs, Nontrivial: out.compressed, Viol: out.viol, Buckets: []string{
+	b := []string{
 		fmt.Sprintf("n<=%d", bucket(h.n)), fmt.Sprintf("len<=%d", bucket(len(ops))),
-		fmt.Sprintf("walk<=%d", bucket(out.maxWalk)), mode, views}}
+		fmt.Sprintf("walk<=%d", bucket(out.maxWalk)), fmt.Sprintf("sets<=%d", bucket(out.nsets)),
+		fmt.Sprintf("bufcap<=%d", bucket(h.bufCap)), mode, views}
+	if h.two {
+		b = append(b, "two-objects")
+	}
+	if h.garbage {
+		b = append(b, "buffer-garbage")
+	}
+	return hx.Result{Obs: out.obs, Nontrivial: out.compressed, Viol: out.viol, Buckets: b}
 }
 
 // ---------------------------------------------------------------- generator
@@ -336,6 +553,14 @@ func (r ref) union(x, y int) {
 		r[px] = py
 		r[py]--
 	}
+}
+
+// root is find without compression (a question of the generator, not an operation of the case).
+func (r ref) root(x int) int {
+	for r[x] >= 0 {
+		x = r[x]
+	}
+	return x
 }
 
 func (r ref) depth(x int) int {
@@ -467,8 +692,11 @@ func buildGroup(r *hx.Rng, k kinds, sim ref, e []int, shape int, stopAfter int, 
 // group is joined by unions in an order that gives the deepest tree some linking rule allows,
 // then come lookups that start at the deep ends, snapshots of the partition and spot
 // operations.  mid says whether views in the middle of the history are affordable for the model.
-func genBig(r *hx.Rng, n, k, shape, kindMode int, mid bool) (header, []op) {
-	h := header{n: n, sparse: true, bufCap: []int{1, 2, 4, 4, 64, 65, n + 1}[r.Intn(7)]}
+//
+// grouping: 0 interleaved (element i in group i mod k), 1 contiguous blocks of unequal size, 2
+// random, 3 interleaved runs (element i in group (i / L) mod k), -1 any of them.
+func genBig(r *hx.Rng, n, k, shape, kindMode int, mid bool, grouping int) (header, []op) {
+	h := header{n: n, sparse: true, garbage: r.Chance(1, 4)}
 	kd := kinds{kindMode, r}
 	sim := newRef(n)
 	var ops []op
@@ -491,7 +719,32 @@ func genBig(r *hx.Rng, n, k, shape, kindMode int, mid bool) (header, []op) {
 		k = n
 	}
 	groups := make([][]int, k)
-	switch r.Intn(3) {
+	if grouping < 0 {
+		grouping = r.Intn(4)
+	}
+	switch grouping {
+	case 3: // interleaved runs
+		l := r.Range(2, 5)
+		for i := 0; i < n; i++ {
+			g := (i / l) % k
+			if i < k*l && i%l == 0 {
+				g = i / l // every group gets its first run
+			}
+			groups[g] = append(groups[g], i)
+		}
+		for g := range groups { // n < k*l: the groups without a run take an element of the largest
+			for len(groups[g]) == 0 {
+				big := 0
+				for j := range groups {
+					if len(groups[j]) > len(groups[big]) {
+						big = j
+					}
+				}
+				m := len(groups[big]) - 1
+				groups[g] = append(groups[g], groups[big][m])
+				groups[big] = groups[big][:m]
+			}
+		}
 	case 0: // interleaved: small least elements, roots anywhere
 		for i := 0; i < n; i++ {
 			groups[i%k] = append(groups[i%k], i)
@@ -563,6 +816,19 @@ func genBig(r *hx.Rng, n, k, shape, kindMode int, mid bool) (header, []op) {
 		}
 		deep = append(deep, best)
 	}
+	// the scratch buffer: capacity 1, around the number of elements on the longest path of the
+	// forest just built (as the documented rule builds it), around n (the longest path any rule
+	// builds), or a fixed size
+	longest := 1
+	for x := 0; x < n; x++ {
+		if d := sim.depth(x) + 1; d > longest {
+			longest = d
+		}
+	}
+	h.bufCap = []int{1, longest - 1, longest, longest + 1, 4, 64, n - 1, n, n + 1}[r.Intn(9)]
+	if h.bufCap < 1 {
+		h.bufCap = 1
+	}
 	add := func(o op) { sim.apply(o); emit(o) }
 	pickDeep := func() int { return deep[r.Intn(len(deep))] }
 	// first lookups after the build: either a snapshot first (on a copy: does not compress the
@@ -620,7 +886,7 @@ func genBig(r *hx.Rng, n, k, shape, kindMode int, mid bool) (header, []op) {
 			add(op{kind: 'o'})
 		}
 		if mid && r.Chance(1, 40) {
-			add(op{kind: 'v'})
+			add(op{kind: "vsmr"[r.Intn(4)]})
 		}
 	}
 	add(op{kind: 'o'})
@@ -679,6 +945,17 @@ func genHistory(r *hx.Rng, n, length int, style int) []op {
 	return ops
 }
 
+// viewTokens is one of the call patterns of the views: all three, one alone, one twice, or the
+// three in another order.
+func viewTokens(r *hx.Rng) []op {
+	pats := []string{"v", "s", "m", "r", "ss", "mm", "rsm", "msr", "rr", "sv", "vv"}
+	var out []op
+	for _, c := range []byte(pats[r.Intn(len(pats))]) {
+		out = append(out, op{kind: c})
+	}
+	return out
+}
+
 // sprinkle turns some lookups of a history into same-set queries and inserts a few views taken
 // on the set itself.
 func sprinkle(r *hx.Rng, n int, ops []op) []op {
@@ -690,14 +967,95 @@ func sprinkle(r *hx.Rng, n int, ops []op) []op {
 		out = append(out, o)
 		// the model's views are cubic in n on Peano indices: several per case only for small n
 		if n <= 40 && r.Chance(1, 25) {
-			out = append(out, op{kind: 'v'})
+			out = append(out, viewTokens(r)...)
 		}
 	}
 	if n > 40 && r.Chance(1, 4) {
 		i := r.Intn(len(out) + 1)
-		out = append(out[:i], append([]op{{kind: 'v'}}, out[i:]...)...)
+		out = append(out[:i], append(viewTokens(r)[:1], out[i:]...)...)
 	}
 	return out
+}
+
+// binomial emits the unions (on current roots, generator's simulation) that join the elements
+// base..base+2^rank-1 into one tree of that rank and depth.
+func binomial(r *hx.Rng, kd kinds, sim ref, base, rank int, emit func(op)) {
+	for step := 1; step < 1<<rank; step *= 2 {
+		for i := base; i < base+1<<rank; i += 2 * step {
+			a, b := sim.root(i), sim.root(i+step)
+			if r.Bool() {
+				a, b = b, a
+			}
+			o := op{kd.u(), a, b}
+			sim.apply(o)
+			emit(o)
+		}
+	}
+}
+
+// genRankPair: a tree A of rank a next to a tree B of rank b, then ONE union of an element x of
+// A (the root, a child of the root, or a deepest element) with an element y of B, in the given
+// argument order, observed before and after; then queries and views.
+func genRankPair(r *hx.Rng, a, b, px, py int, swap bool, kindMode int, capSel int) (header, []op, bool) {
+	n := 1<<a + 1<<b + 1 // one element stays alone
+	kd := kinds{kindMode, r}
+	sim := newRef(n)
+	var ops []op
+	emit := func(o op) { ops = append(ops, o) }
+	binomial(r, kd, sim, 0, a, emit)
+	binomial(r, kd, sim, 1<<a, b, emit)
+	pick := func(base, rank, p int) (int, bool) {
+		root := sim.root(base)
+		switch p {
+		case 0:
+			return root, true
+		case 1: // a child of the root
+			for x := base; x < base+1<<rank; x++ {
+				if sim.depth(x) == 1 {
+					return x, true
+				}
+			}
+		default: // a deepest element, depth >= 2
+			for x := base; x < base+1<<rank; x++ {
+				if sim.depth(x) == rank && rank >= 2 {
+					return x, true
+				}
+			}
+		}
+		return 0, false
+	}
+	x, ok1 := pick(0, a, px)
+	y, ok2 := pick(1<<a, b, py)
+	if !ok1 || !ok2 {
+		return header{}, nil, false
+	}
+	longest := sim.depth(x) + 1
+	if d := sim.depth(y) + 1; d > longest {
+		longest = d
+	}
+	h := header{n: n, sparse: true, garbage: capSel%2 == 1}
+	h.bufCap = []int{1, longest - 1, longest, longest + 1}[capSel%4]
+	if h.bufCap < 1 {
+		h.bufCap = 1
+	}
+	add := func(o op) { sim.apply(o); emit(o) }
+	add(op{kind: 'o'})
+	if swap {
+		add(op{kd.u(), y, x})
+	} else {
+		add(op{kd.u(), x, y})
+	}
+	add(op{kind: 'o'})
+	add(op{kd.q(), x, y})
+	add(op{kd.q(), 0, n - 2})
+	add(op{kd.q(), n - 1, x})
+	add(op{kd.f(), r.Intn(n), 0})
+	if n <= 70 {
+		ops = append(ops, viewTokens(r)...)
+	}
+	add(op{kd.u(), n - 1, []int{x, y, 0, n - 2}[r.Intn(4)]})
+	add(op{kind: 'o'})
+	return h, ops, true
 }
 
 func gen(g *hx.Gen) {
@@ -774,7 +1132,7 @@ func gen(g *hx.Gen) {
 					modes = []int{0, 1}
 				}
 				for _, m := range modes {
-					h, ops := genBig(r, b+1, 1, shape, m, false)
+					h, ops := genBig(r, b+1, 1, shape, m, false, -1)
 					g.Emit(caseLine(h, ops))
 				}
 				// below, at, further above B, split into a few sets
@@ -784,7 +1142,7 @@ func gen(g *hx.Gen) {
 				}
 				for _, off := range offs {
 					n := b + off
-					h, ops := genBig(r, n, []int{1, 2, 3, 5, 8}[r.Intn(5)], shape, kindMode%3, n <= 140)
+					h, ops := genBig(r, n, []int{1, 2, 3, 5, 8}[r.Intn(5)], shape, kindMode%3, n <= 140, -1)
 					kindMode++
 					g.Emit(caseLine(h, ops))
 				}
@@ -803,7 +1161,7 @@ func gen(g *hx.Gen) {
 		if shape == shChainAsc || shape == shChainDesc {
 			mode = (i/5 + i) % 2
 		}
-		h, ops := genBig(r, n, []int{1, 1, 2, 4}[r.Intn(4)], shape, mode, false)
+		h, ops := genBig(r, n, []int{1, 1, 2, 4}[r.Intn(4)], shape, mode, false, -1)
 		g.Emit(caseLine(h, ops))
 	}
 	// sizes between the boundaries, many sets, roots that are not least elements
@@ -812,8 +1170,134 @@ func gen(g *hx.Gen) {
 		if r.Chance(1, 4) {
 			n = r.Range(65, 70)
 		}
-		h, ops := genBig(r, n, r.Range(1, 12), r.Intn(nShapes), r.Intn(3), n <= 140)
+		h, ops := genBig(r, n, r.Range(1, 12), r.Intn(nShapes), r.Intn(3), n <= 140, -1)
 		g.Emit(caseLine(h, ops))
+	}
+
+	// Fresh sets: New(n) at and around the multiples of 64 (and n = 0, 1, 2) with no union at
+	// all: nothing, a snapshot, lookups at the ends and around the multiples of 64, the views.
+	fresh := []int{0, 1, 2, 63, 64, 65, 127, 128, 129, 192, 256, 320, 512, 1024}
+	if g.Thorough() {
+		fresh = append(fresh, 191, 193, 255, 257, 384, 448, 576, 640, 2048, 4096)
+	}
+	for _, n := range fresh {
+		for variant := 0; variant < 4; variant++ {
+			h := header{n: n, sparse: n > 130 || variant%2 == 0, bufCap: []int{1, 4, 64}[variant%3], garbage: variant == 3}
+			var ops []op
+			switch variant {
+			case 1:
+				ops = append(ops, op{kind: 'o'})
+			case 2, 3:
+				if n == 0 {
+					ops = append(ops, op{kind: 'o'})
+					break
+				}
+				kd := kinds{2, r}
+				for _, x := range []int{0, n - 1, n / 2, 63, 64, 65, n - 64, n - 65} {
+					if x >= 0 && x < n {
+						ops = append(ops, op{kd.f(), x, 0}, op{kd.q(), x, (x + 64) % n}, op{kd.q(), x, x})
+					}
+				}
+				ops = append(ops, op{kind: 'o'})
+				if n <= 130 {
+					ops = append(ops, viewTokens(r)...)
+				}
+			}
+			g.Emit(caseLine(h, ops))
+		}
+	}
+
+	// One union of an element of a tree of rank a with an element of a tree of rank b: all
+	// a, b, the element a root / a child of the root / a deepest element on either side, both
+	// argument orders, unbuffered and buffered, buffer capacity 1 / path-1 / path / path+1.
+	maxRank := g.Pick(4, 6)
+	pairs := 0
+	for a := 0; a <= maxRank; a++ {
+		for b := 0; b <= maxRank; b++ {
+			for px := 0; px < 3; px++ {
+				for py := 0; py < 3; py++ {
+					for v := 0; v < 4; v++ {
+						if h, ops, ok := genRankPair(r, a, b, px, py, v&1 == 1, v>>1, pairs); ok {
+							g.Emit(caseLine(h, ops))
+							pairs++
+						}
+					}
+				}
+			}
+		}
+	}
+	g.Exhaustive(fmt.Sprintf("one union between binomial trees of ranks a, b <= %d: x and y each the root / a child of the root / a deepest element, both argument orders, Union and UnionBuffered (%d cases)", maxRank, pairs))
+	// the same with very unequal sizes (1:16 ... 1:256)
+	for _, ab := range [][2]int{{0, 6}, {1, 7}, {2, 8}, {0, 8}, {7, 8}, {8, 8}, {3, 7}} {
+		for v := 0; v < 4; v++ {
+			a, b := ab[0], ab[1]
+			if v >= 2 {
+				a, b = b, a
+			}
+			if h, ops, ok := genRankPair(r, a, b, r.Intn(3), r.Intn(3), v&1 == 1, r.Intn(3), r.Intn(8)); ok {
+				g.Emit(caseLine(h, ops))
+			}
+		}
+	}
+
+	// Number of sets just below / at / above 16, 32, 64 (thorough: 128, 256): k sets whose
+	// members are interleaved (element i in set i mod k, or runs of 2..5 elements in turn), so
+	// that neither the roots nor the sets are contiguous.
+	ks := []int{15, 16, 17, 31, 32, 33, 63, 64, 65}
+	if g.Thorough() {
+		ks = append(ks, 127, 128, 129, 255, 256, 257)
+	}
+	for _, k := range ks {
+		for rep, reps := 0, g.Pick(2, 6); rep < reps; rep++ {
+			n := k*r.Range(2, 4) + r.Intn(k)
+			if rep%2 == 1 && k <= 65 {
+				n = k + r.Intn(k) // many singletons, n small: views in the middle too
+			}
+			h, ops := genBig(r, n, k, r.Intn(nShapes), r.Intn(3), n <= 140, []int{0, 3}[rep%2])
+			g.Emit(caseLine(h, ops))
+		}
+	}
+
+	// Two sets alive at the same time, their calls interleaved, one scratch buffer for both.
+	for i, cnt := 0, g.Pick(300, 6000); i < cnt; i++ {
+		n1, n2 := r.Range(1, 24), r.Range(1, 24)
+		switch r.Intn(8) {
+		case 0:
+			n1 = r.Range(62, 67)
+		case 1:
+			n2 = r.Range(62, 67)
+		case 2:
+			n2 = n1
+		}
+		gen1 := func(n int) []op {
+			length := r.Range(n, 2*n+4)
+			if length > 80 {
+				length = 80
+			}
+			ops := genHistory(r, n, length, r.Intn(3))
+			if r.Bool() {
+				ops = sprinkle(r, n, ops)
+			}
+			return ops
+		}
+		t1, t2 := tokens(gen1(n1), ""), tokens(gen1(n2), "@")
+		var all []string
+		for len(t1)+len(t2) > 0 {
+			// runs of 1..3 tokens of one object, then the other
+			src := &t1
+			if len(t1) == 0 || (len(t2) > 0 && r.Bool()) {
+				src = &t2
+			}
+			for run := r.Range(1, 3); run > 0 && len(*src) > 0; run-- {
+				all = append(all, (*src)[0])
+				*src = (*src)[1:]
+			}
+		}
+		h := header{n: n1, two: true, n2: n2, bufCap: []int{1, 2, 3, 4, 8}[r.Intn(5)], garbage: r.Chance(1, 3), sparse: r.Chance(1, 4)}
+		if h.sparse {
+			all = append(all, "o", "@o")
+		}
+		g.Emit(h.String() + ";" + strings.Join(all, " "))
 	}
 
 	count := g.Pick(6000, 200000)
@@ -846,7 +1330,8 @@ func gen(g *hx.Gen) {
 		if r.Chance(1, 3) {
 			ops = sprinkle(r, n, ops)
 		}
-		do(n, ops)
+		// depth is at most 6 here: capacities 1..8 lie below, at and above every path length
+		g.Emit(caseLine(header{n: n, bufCap: []int{1, 2, 3, 4, 4, 5, 6, 8}[r.Intn(8)], garbage: r.Chance(1, 4)}, ops))
 	}
 }
 
